@@ -10,6 +10,8 @@ mod oracle;
 mod bits;
 mod decode;
 mod front;
+mod zoo;
+mod proto;
 mod per;
 mod probes;
 mod seq;
@@ -43,6 +45,9 @@ pub fn run_case(input: &Input) -> Result<(), String> {
         c if c.starts_with("per_") => per::run(&i),
         c if c.starts_with("seq_") => seq::run(&i),
         c if c.starts_with("dec_") => decode::run(&i),
+        "proto_zoo" => proto::run(&i),
+        "zoo_setorder" => zoo::run_setorder(&i),
+        "zoo_types" => zoo::run_zoo(&i),
         "front_resolve" => front::run_resolve(&i),
         "front_inttext" => front::run_inttext(&i),
         "charset_char" => {
@@ -117,6 +122,9 @@ fn main() {
                     "per" => per::search(&mut rng, budget / 4, &mut try_one),
                     "seq" => seq::search(&mut rng, budget, &mut try_one),
                     "decode" => decode::search(&mut rng, budget * 4, &mut try_one),
+                    "proto" => proto::search(budget, &mut try_one),
+                    "setorder" => zoo::search_setorder(&mut try_one),
+                    "zoo" => zoo::search_zoo(budget, &mut try_one),
                     "resolve" => front::search_resolve(&mut try_one),
                     "inttext" => front::search_inttext(&mut try_one),
                     "charset" => {
